@@ -360,6 +360,11 @@ def gen_scenario(rng, profile):
                              sorted(rng.sample(range(1, 248), rng.randint(1, 4)))])
         for u in hosted:
             units[str(u)] = gen_layout(rng)
+        if len(hosted) > 1 and rng.random() < 0.25:
+            # every unit configured alike (the harness then builds their blocks from one template list object, as an
+            # application with several identical devices does): their cells must be separate all the same
+            for u in hosted[1:]:
+                units[str(u)] = copy.deepcopy(units[str(hosted[0])])
         unit_order = None
         if len(hosted) > 1 and rng.random() < 0.4:
             # the application filled its slaves dict in some other order than ascending
